@@ -129,7 +129,9 @@ pub mod sync {
 
         impl<T> Drop for MutexGuard<'_, T> {
             fn drop(&mut self) {
-                if self.inner.is_some() {
+                // (not while unwinding: loom reports a deadlock by panicking, and a scheduling point
+                // inside that unwinding would abort the process)
+                if self.inner.is_some() && !std::thread::panicking() {
                     // still holding the lock here; it is released when `inner` is dropped
                     self.probe.load(Relaxed);
                 }
@@ -272,7 +274,9 @@ pub mod sync {
 
         impl<T> Drop for RwLockReadGuard<'_, T> {
             fn drop(&mut self) {
-                if self.inner.is_some() {
+                // (not while unwinding: loom reports a deadlock by panicking, and a scheduling point
+                // inside that unwinding would abort the process)
+                if self.inner.is_some() && !std::thread::panicking() {
                     self.probe.load(Relaxed);
                 }
             }
@@ -293,7 +297,9 @@ pub mod sync {
 
         impl<T> Drop for RwLockWriteGuard<'_, T> {
             fn drop(&mut self) {
-                if self.inner.is_some() {
+                // (not while unwinding: loom reports a deadlock by panicking, and a scheduling point
+                // inside that unwinding would abort the process)
+                if self.inner.is_some() && !std::thread::panicking() {
                     self.probe.load(Relaxed);
                 }
             }
